@@ -18,9 +18,9 @@ from . import fixtures as F  # noqa: F401  (installs the virtual threading/time 
 from . import sched as S
 from . import vsocket, vthreading
 
-import paramiko  # noqa: E402
+import paramiko  # noqa: E402,F401
 from paramiko import SFTPAttributes, SFTPHandle, SFTPServer, SFTPServerInterface  # noqa: E402
-from paramiko.sftp import SFTP_OK, SFTP_FAILURE  # noqa: E402
+from paramiko.sftp import SFTP_OK  # noqa: E402
 from paramiko.sftp_client import SFTPClient  # noqa: E402
 from paramiko.sftp_file import SFTPFile  # noqa: E402
 
